@@ -174,6 +174,25 @@ class Env:
             return self.jac_of(self.call(f, x), x)
         return self.fd_jac(f, x)
 
+    def deriv_at(self, f, name, shape, point=0.0):
+        """dense d f(x) / d x evaluated at x = point (a constant): engine differentiation followed by exact
+        substitution (sym) / Richardson central differences of the real code around the point (native)"""
+        if self.sym:
+            x = S.symarray(name, shape)
+            y = f(x)
+            J = self.jac_of(y, x)
+            mapping = {S.var_id(v): RF.const(S._tofrac(point)) for v in np.asarray(x, dtype=object).reshape(-1)}
+            return S.subs_array(J, mapping)
+        return self.fd_jac(lambda t: f(np.asarray(t, dtype=float).reshape(shape)), np.full(shape, float(point)))
+
+    def at(self, expr, xs, point=0.0):
+        """sym: expr with the variables of array xs replaced by the constant point; native: expr unchanged (the caller
+        passes the point itself natively)"""
+        if self.sym:
+            mapping = {S.var_id(v): RF.const(S._tofrac(point)) for v in np.asarray(xs, dtype=object).reshape(-1)}
+            return S.subs_array(np.asarray(expr, dtype=object), mapping)
+        return expr
+
     # ------------------------------------------------------------------ obligations
     def _new(self, prop, name, kind):
         o = Obl(prop, name, kind)
